@@ -233,6 +233,15 @@ def gen_desc(r, max_ops=40, p_raise=0.08, p_rej=0.4):
             if r.random() < 0.08:
                 kw.insert(r.randrange(len(kw) + 1), (1000 + r.randint(0, 5), r.randint(0, 3)))
             ops.append(("U", kw))
+    if r.random() < 0.3:
+        # an "echo": a few reads, then one update() call re-applying every initial value (all parameters at once, in declaration or
+        # reverse order), then reads again — setting values equal to the current ones must execute nothing, whatever the names are
+        import copy as _copy
+        pre = [("G", r.choice(qnames)) for _ in range(r.randint(1, 4))]
+        order = list(range(P)) if r.random() < 0.5 else list(range(P))[::-1]
+        echo = ("U", [(n, _copy.deepcopy(d.init[n])) for n in order])
+        post = [("G", q) for q in r.sample(qnames, min(len(qnames), 3))]
+        ops = pre + [echo] + post + ops
     d.ops = ops
     return d
 
@@ -243,7 +252,18 @@ TRACE = []
 def build_class(d, cache_mod, fw_mod, tag="K"):
     """Materialise the descriptor with the real decorators."""
     P = d.np
-    pname = lambda n: (f"d{n}_params" if d.isdict[n] else f"p{n}") if n < P else f"zz{n}"
+    # names matter to the real framework code (`*_params` keys are looked at by update(); models and their parameter dictionaries come in
+    # `<x>_model` / `<x>_params` pairs): half of the synthetic classes name the scalar parameter preceding a dict parameter as its model
+    paired = (P + len(d.ops)) % 2 == 0
+
+    def pname(n):
+        if n >= P:
+            return f"zz{n}"
+        if d.isdict[n]:
+            return f"d{n}_params"
+        if paired and n + 1 < P and d.isdict[n + 1]:
+            return f"d{n + 1}_model"
+        return f"p{n}"
     qname = lambda n: f"q{n}"
     resolve = {}
     for o, layer in enumerate(d.layers):
